@@ -357,12 +357,25 @@ class _YFile:
         self.__dict__["_real"] = real
         self.__dict__["_ip"] = ip
         self.__dict__["_rel"] = rel
+        self.__dict__["_broken"] = False    # a PERSISTENT write error (disk full): every later flush fails too
+
+    def _through(self, who, name, do):
+        try:
+            return self._ip.handler(who, name, (self._rel,), do)
+        except BaseException as e:
+            if getattr(e, "verif_persistent", False):
+                self.__dict__["_broken"] = True
+            raise
+
+    @staticmethod
+    def _persisting():
+        raise OSError(errno.ENOSPC, "No space left on device (persisting)")
 
     def write(self, data):
         who = self._ip.actor()
         if who is None:
             return self._real.write(data)
-        return self._ip.handler(who, "write", (self._rel,), lambda: self._real.write(data))
+        return self._through(who, "write", lambda: self._real.write(data))
 
     def writelines(self, lines):
         for ln in lines:
@@ -372,7 +385,7 @@ class _YFile:
         who = self._ip.actor()
         if who is None:
             return self._real.flush()
-        return self._ip.handler(who, "flush", (self._rel,), lambda: self._real.flush())
+        return self._through(who, "flush", self._persisting if self._broken else (lambda: self._real.flush()))
 
     def close(self):
         """Closing the file object is a yield / fault point ("fclose") while it is still open: its implicit flush is
@@ -384,7 +397,8 @@ class _YFile:
         if who is None:
             return self._real.close()
         try:
-            return self._ip.handler(who, "fclose", (self._rel,), lambda: self._real.close())
+            return self._ip.handler(who, "fclose", (self._rel,),
+                                    self._persisting if self._broken else (lambda: self._real.close()))
         except BaseException:
             try:
                 self._real.close()
@@ -441,7 +455,17 @@ FAULTS = {
     "eperm": lambda: PermissionError(errno.EPERM, "Operation not permitted (injected)"),
     "kbint": lambda: KeyboardInterrupt("injected"),
     "eio": lambda: OSError(errno.EIO, "Input/output error (injected)"),
+    "enospc-persistent": lambda: _persistent_enospc(),
 }
+
+
+def _persistent_enospc():
+    """ENOSPC that persists: once it has hit a write()/flush() of a file object, every later flush of that file
+    object — including the implicit one in its close() — fails as well (what a full disk does)."""
+    e = OSError(errno.ENOSPC, "No space left on device (injected, persistent)")
+    e.verif_persistent = True
+    return e
+
 FAULT_KINDS = ["enospc", "eperm", "kbint"]
 SCHED_CALLS = {"open-x", "open-w", "fsync", "stat", "chmod", "replace", "remove"}
 OPEN_CALLS = ("open-x", "open-w")   # open-w: the lock file opened without O_EXCL (only a mutated program does that)
@@ -661,6 +685,9 @@ def run_real(root: Path, scripts: list[Script], schedule, init: bytes | None, fi
     return rr
 
 
+ABORT_FCLOSE_CLS = "abort-file-close-error-skips-unlink:lock-left-until-finalizer"
+
+
 def canon_outcome(o: str) -> str:
     return "inject" if o.startswith("inject:") else o
 
@@ -699,6 +726,7 @@ def monitor(scripts, init, rr: RealRun):
     rm_faulted = set()
     committed = {}
     pre_close_fault = set()
+    fclose_failed = set()
     prev_content = rr.snaps[0][1]
     if "f.lock" in rr.snaps[0][0]:
         bad.append(("stale lock before anybody started", "harness"))
@@ -743,6 +771,8 @@ def monitor(scripts, init, rr: RealRun):
                 rm_faulted.add(i)
             if call in ("flush", "fsync", "stat", "chmod") and oc in ("inject", "ValueError"):
                 pre_close_fault.add(i)
+            if call == "fclose":
+                fclose_failed.add(i)
         # readers: `f` only changes at a successful rename, never disappears
         if content != prev_content and not (call == "replace" and oc == "ok"):
             bad.append((f"step {k}: `f` changed at a step that is not a successful rename ({call}:{oc})",
@@ -762,6 +792,9 @@ def monitor(scripts, init, rr: RealRun):
             pass    # unlink itself failed: nothing the code can do
         elif not rel:
             pass    # the caller never called close()/abort() (after the failure): its fault, not the protocol's
+        elif rel[-1][1] == "raised" and holder in fclose_failed:
+            bad.append((f"abort() of actor {holder} raised from closing the file object before the unlink and left "
+                        f"`f.lock` behind (only the finaliser would remove it)", ABORT_FCLOSE_CLS))
         elif rel[-1] == ("c", "raised") and holder in pre_close_fault:
             bad.append((f"close() of actor {holder} failed before the rename and left `f.lock` behind "
                         f"(only the finaliser would remove it)", "close-fault-before-rename:lock-left-until-finalizer"))
@@ -872,6 +905,77 @@ def _stream_faults2(ctx, root, lines):
     ctx.extra_cov["fault_schedules_2actors"] = n
 
 
+def _stream_faultseq(ctx, root, lines):
+    """fault SEQUENCES: a call fails and the same actor's next call fails too — how a persistent error (disk
+    full) looks to the protocol: flush fails in close(), then the implicit flush of `self._file.close()` inside
+    abort() fails again."""
+    stream = "sched.faultseq"
+    pairs = [("with/with", W(b"A", perm=True), W(b"B")),
+             ("with-finalised/with-finalised", W(b"A1", b"A2", hC=["a"]), W(b"B", hC=["a"], fsync=False)),
+             ("wa/with", W(b"A", end="a"), W(b"B"))]
+    n = 0
+    for name, a, b in pairs:
+        la, lb = solo_len(root, a, b"old"), solo_len(root, b, b"old")
+        bases = [[0] * (la + 2) + [1] * (lb + 2), [0] * 2 + [1] + [0] * (la + 2) + [1] * (lb + 2),
+                 [1] * (lb + 2) + [0] * (la + 2)]
+        for base in bases:
+            for pos in range(len(base)):
+                nxt = next((j for j in range(pos + 1, len(base)) if base[j] == base[pos]), None)
+                if nxt is None:
+                    continue
+                for fk in (FAULT_KINDS if ctx.thorough else ["enospc"]):
+                    sch = [(x, fk if j in (pos, nxt) else None) for j, x in enumerate(base)]
+                    check_case(ctx, stream, root, [a, b], sch, b"old", tag=f"{name}:{fk}x2", lines=lines)
+                    n += 1
+        flush_model(ctx, lines)
+    ctx.extra_cov["fault_sequences_2actors"] = n
+
+
+def devfull_probe(root: Path):
+    """A REAL persistent ENOSPC, not an injected one: the handle's file object is replaced by one on /dev/full, so
+    every flush genuinely fails.  Returns None when /dev/full is unavailable, else a dict of what was seen."""
+    from dulwich.file import GitFile
+    if not os.path.exists("/dev/full"):
+        return None
+    root = Path(os.path.realpath(root))
+    shutil.rmtree(root, ignore_errors=True)
+    root.mkdir(parents=True)
+    p = str(root / "f")
+    with open(p, "wb") as fh:
+        fh.write(b"old")
+    out = {}
+    gc_was = gc.isenabled()
+    gc.disable()
+    try:
+        with warnings.catch_warnings():
+            warnings.simplefilter("ignore")
+            h = GitFile(p, "wb")
+            real = h._file
+            h._file = os.fdopen(os.open("/dev/full", os.O_WRONLY), "wb")
+            real.close()
+            try:
+                with h:
+                    h.write(b"new")
+                out["raised"] = None
+            except OSError as e:
+                out["raised"] = f"OSError errno={e.errno}"
+                out["lock_while_handling"] = os.path.exists(p + ".lock")
+                out["_closed"] = bool(h._closed)
+                _scrub(e)
+                del e
+            del h
+            gc.collect()
+            out["lock_after_finaliser"] = os.path.exists(p + ".lock")
+            with open(p, "rb") as fh:
+                out["content"] = fh.read().decode()
+            if os.path.exists(p + ".lock"):
+                os.remove(p + ".lock")
+    finally:
+        if gc_was:
+            gc.enable()
+    return out
+
+
 def _rand_script(rng, who: int) -> Script:
     tagb = bytes([65 + who])
     r = rng.random()
@@ -934,8 +1038,8 @@ def _stream_random(ctx, root, lines):
 
 
 # the recorded three-actor schedule of the repaired defect, in this module's step convention:
-# A: open-x write flush fsync replace | B: open-x | A: (old program: remove — unlinks B's lock) | C: open-x
-OLD_DEFECT_STEPS = [(0, None)] * 5 + [(1, None), (0, None), (2, None)]
+# A: open-x write flush fsync fclose replace | B: open-x | A: (old program: remove — unlinks B's lock) | C: open-x
+OLD_DEFECT_STEPS = [(0, None)] * 6 + [(1, None), (0, None), (2, None)]
 OLD_DEFECT_SCRIPTS = [W(b"A"), W(b"B"), W(b"C")]
 
 
@@ -961,6 +1065,23 @@ def _run_corpus(ctx, root, lines):
                 if not (tr and tr[-1].startswith("open-x:ok") and fin.get("owns") == "011"):
                     ctx.disagree(stream, {"witness": f.name}, out[:300],
                                  "expected the pre-dd7ffc5 program to let C in while B owns the lock")
+        elif c.get("kind") == "devfull":
+            r = devfull_probe(root.parent / "devfull")
+            if r is None:
+                ctx.notes.append("/dev/full not available: real persistent-ENOSPC witness skipped")
+                continue
+            ctx.count(stream, ("devfull", json.dumps(r, sort_keys=True)), True, f.stem)
+            ctx.extra_cov["devfull_probe"] = r
+            if r.get("content") != "old":
+                ctx.oracle_fail(stream, {"witness": f.name, "seen": r}, "a write that failed with a real ENOSPC "
+                                "(/dev/full) changed the target", "devfull:target-changed")
+            if r.get("lock_after_finaliser"):
+                ctx.oracle_fail(stream, {"witness": f.name, "seen": r}, "lock left for good after a real ENOSPC", "lock-leaked")
+            elif r.get("raised") and r.get("lock_while_handling"):
+                ctx.oracle_fail(stream, {"witness": f.name, "seen": r},
+                                "`with GitFile(...)` failed with a real, persistent ENOSPC (/dev/full): close() and the "
+                                "abort() in its finally both raise from flushing, the unlink is skipped and `f.lock` is "
+                                "still there while the caller handles the error", ABORT_FCLOSE_CLS)
         elif c.get("kind") == "caller-fault":
             _stream_fault_callers(ctx, Path(os.path.realpath(ctx.scratch)) / "corpus-callers", only={c["routine"]},
                                   only_fault=(c["fail_at"], c["fault"]), stream="corpus.callers", extra=False)
@@ -1308,9 +1429,16 @@ def _judge_fault(ctx, stream, name, k, kind, fr, ref_events, old, new, targets):
     elif fr.locks_at_raise and not lock_rm_failed:
         in_close_pre = call in ("flush", "fsync", "stat", "chmod") and paths and paths[0].endswith(".lock")
         upto = fr.n_at_raise if fr.n_at_raise is not None else len(fr.events)
+        # closing the file object inside abort() raised and nothing unlinked that lock afterwards
+        fc = [j for j, (c, p, o) in enumerate(fr.events[:upto]) if c == "fclose" and o != "ok" and p
+              and p[0] in fr.locks_at_raise]
+        abort_fclose = bool(fc) and not any(c == "remove" and p and p[0] == fr.events[fc[-1]][1][0]
+                                            for c, p, o in fr.events[fc[-1] + 1:upto])
         removed_after = inj is not None and any(c == "remove" and p and p[0].endswith(".lock")
                                                 for c, p, o in fr.events[inj + 1:upto])
-        if in_close_pre and not removed_after:
+        if abort_fclose:
+            cls = ABORT_FCLOSE_CLS
+        elif in_close_pre and not removed_after:
             cls = "close-fault-before-rename:lock-left-until-finalizer"
         else:
             cls = f"{name}:lock-left-until-finalizer"
@@ -1359,6 +1487,8 @@ def _stream_fault_callers(ctx, base: Path, only=None, only_fault=None, stream="f
             if only_fault is not None and k != (widx[-1] if only_fault[0] == "last-write" and widx else only_fault[0]):
                 continue
             kinds = kinds_all if on_lock else [kinds_all[k % len(kinds_all)]]
+            if on_lock and call in ("write", "flush"):
+                kinds = kinds + ["enospc-persistent"]
             if only_fault is not None:
                 kinds = [only_fault[1]]
             for kind in kinds:
@@ -1416,7 +1546,8 @@ def run(ctx: core.Ctx):
         "write()/flush() of the handle's file object",
     ]
     streams = [lambda: _run_corpus(ctx, root, lines), lambda: _stream_exhaustive2(ctx, root, lines),
-               lambda: _stream_faults2(ctx, root, lines), lambda: _stream_three(ctx, root, lines),
+               lambda: _stream_faults2(ctx, root, lines), lambda: _stream_faultseq(ctx, root, lines),
+               lambda: _stream_three(ctx, root, lines),
                lambda: _stream_random(ctx, root, lines), lambda: _stream_fault_callers(ctx, base / "callers")]
     for st in streams:
         st()
